@@ -50,7 +50,7 @@ impl Collection<Index> {
             return None;
         }
 
-        let negative_index = (-index) as usize;
+        let negative_index = index.unsigned_abs();
         if let Some(largest_known_index) = self.largest_known_index()
             && largest_known_index >= negative_index - 1
         {
